@@ -52,7 +52,9 @@ def actions(alpha):
         acts.append(f'x += {e}')
         acts.append(f'x[0] += {e}')
     acts += ['z = {}', 'x = []', 'x = [[0]]', 'y = [[5]]', 'f = v => v; x = f(h)', 'x = h; y = h', 'x = h; y = x',
-             'x = [h]; y = x[0]', 'y = x', 'x = y']
+             'x = [h]; y = x[0]', 'y = x', 'x = y',
+             # assignments made INSIDE a function body (host-defined functions with statement bodies, bound through ast_names)
+             'x = af(h)', 'y = ag(h)', 'af(x)', 'x = ag(x)', 'y = map([h], af)']
     paths = ['x', 'x[0]', 'x[0][0]', 'y', 'y[0]', 'h', 'h[0]', 'z["k"]', 'z["k"][0]', 'd["k"]', 'x[1]', 'y[0][1]',
              't[1]', 'x[0][1]', 'he', 'hd', 'z["k"][1]']
     if alpha != 'full':
@@ -188,6 +190,8 @@ class Watch:
         self.state = None
 
     def enter(self, node, state):
+        if _per_eval[0] and self.state is not state:
+            wrap_in_scope(state, self.res)
         self.state = state
         cn = type(node).__name__
         if cn in ('AssignOp', 'ShortOp'):
@@ -245,36 +249,58 @@ _watch = [None]
 _installed = [False]
 
 
+def _make_wrapper(orig, fname):
+    def wrapper(container, *args, _orig=orig, _fname=fname):
+        w = _watch[0]
+        if w is None or w.state is None:
+            return _orig(container, *args)
+        before, keep = reach_scopes(w.state.names)
+        cont_before = set()
+        reach(container, cont_before, keep)
+        r = _orig(container, *args)
+        after, keep2 = set(), []
+        reach(container, after, keep2)
+        new = after - cont_before
+        shared = new & before
+        w.res.count('assignment_nodes_checked')
+        if shared:
+            form = 'index-assign' if _fname == '__setitem__' else 'index-compound' + str(args[1])
+            w.res.violation(f'alias:{form}:{type(args[-1]).__name__}',
+                            'the assigned container slot shares a mutable object with something that existed before the assignment',
+                            {'history': w.history, 'mode': w.mode, 'statement': form,
+                             'expected': 'an independent copy', 'observed': f'{len(shared)} shared mutable object(s)'})
+        return r
+    wrapper._c12_wrapper = True
+    return wrapper
+
+
+_per_eval = [False]
+
+
 def install_setitem_wrappers():
-    """Invariant A for index assignment: wrap the two builtins in the snapshot's FUNCTIONS."""
+    """Invariant A for index assignment: wrap the two builtins in the snapshot's FUNCTIONS; where that table is read-only,
+    they are wrapped in the builtin scope of each evaluation instead (Watch.enter)."""
     if _installed[0]:
         return
     api = snapshot.api()
     for fname in ('__setitem__', '__setitem_with_op__'):
-        orig = api.FUNCTIONS[fname]
-
-        def wrapper(container, *args, _orig=orig, _fname=fname):
-            w = _watch[0]
-            if w is None or w.state is None:
-                return _orig(container, *args)
-            before, keep = reach_scopes(w.state.names)
-            cont_before = set()
-            reach(container, cont_before, keep)
-            r = _orig(container, *args)
-            after, keep2 = set(), []
-            reach(container, after, keep2)
-            new = after - cont_before
-            shared = new & before
-            w.res.count('assignment_nodes_checked')
-            if shared:
-                form = 'index-assign' if _fname == '__setitem__' else 'index-compound' + str(args[1])
-                w.res.violation(f'alias:{form}:{type(args[-1]).__name__}',
-                                'the assigned container slot shares a mutable object with something that existed before the assignment',
-                                {'history': w.history, 'mode': w.mode, 'statement': form,
-                                 'expected': 'an independent copy', 'observed': f'{len(shared)} shared mutable object(s)'})
-            return r
-        api.FUNCTIONS[fname] = wrapper
+        try:
+            api.FUNCTIONS[fname] = _make_wrapper(api.FUNCTIONS[fname], fname)
+        except TypeError:
+            _per_eval[0] = True
     _installed[0] = True
+
+
+def wrap_in_scope(state, res):
+    """Fallback: the outermost scope of this evaluation (the builtins) gets the wrappers."""
+    try:
+        sc = state.names.scopes[0]
+        for fname in ('__setitem__', '__setitem_with_op__'):
+            f = sc[fname]
+            if not getattr(f, '_c12_wrapper', False):
+                sc[fname] = _make_wrapper(f, fname)
+    except Exception:  # noqa
+        res.count('setitem_wrappers_unavailable')
 
 
 _parser = [None]
@@ -294,6 +320,23 @@ def parser():
 
 
 HOST_MUT = None
+AST_FUNCTIONS = {'af': (['v'], 'tmp = v; push(tmp, 9); tmp'), 'ag': (['v'], 'tmp = [v]; tmp[0][0] = [7]; loc = {}; loc["k"] = v; push(loc["k"], 6); v')}
+
+
+_astf = [None]
+runner.TASK_INIT.append(lambda: _astf.__setitem__(0, None))
+
+
+def ast_functions():
+    if _astf[0] is None:
+        _astf[0] = _build_ast_functions()
+    return _astf[0]
+
+
+def _build_ast_functions():
+    ops = snapshot.api().ast_ops
+    return {k: ops.LambdaOp(args=[ops.NameOp(a) for a in params], expr=parser().parse(body)) for k, (params, body) in AST_FUNCTIONS.items()}
+
 
 
 def run_history(res, history, mode):
@@ -311,7 +354,7 @@ def run_history(res, history, mode):
             before_host = {k: plain(v) for k, v in host0.items()}
             try:
                 with opwrap.traced(w):
-                    parser().eval(prog, names, max_ops_evaluated=10000)
+                    parser().eval(prog, names, ast_names=ast_functions(), max_ops_evaluated=10000)
                 ok_last = True
             except Exception:  # noqa
                 ok_last = False
